@@ -388,6 +388,27 @@ static void dump(std::ostream& out) {
         }
         out << "\n";
     }
+    // Y: every parked temporary lies inside one block of its command buffer, aligned for its type, disjoint from the others
+    {
+        size_t n = 0, oob = 0, mis = 0, ovl = 0;
+        for (size_t t = 0; t < em.temporal_storages_.size(); ++t) {
+            auto& st = em.temporal_storages_[ThreadId::make(t)];
+            std::vector<std::pair<const std::byte*, const std::byte*>> taken;
+            for (auto& a : st.actions_) {
+                if (a.action != TemporalStorage::Action::kAssignComponent || a.ptr == nullptr) continue;
+                const auto& info = ComponentFactory::instance().componentInfo(a.component_id);
+                ++n;
+                const std::byte* b = a.ptr; const std::byte* e = a.ptr + info.size;
+                bool inside = false;
+                for (auto& c : st.chunks_) if (b >= c.data.get() && e <= c.data.get() + c.capacity) inside = true;
+                if (!inside) ++oob;
+                if (info.align > 1 && reinterpret_cast<uintptr_t>(b) % info.align != 0) ++mis;
+                for (auto& r : taken) if (info.size > 0 && b < r.second && r.first < e) ++ovl;
+                taken.push_back({b, e});
+            }
+        }
+        if (n) out << "Y n=" << n << " oob=" << oob << " misaligned=" << mis << " overlap=" << ovl << "\n";
+    }
     out << "W " << d.world->version().toInt() << " " << em.world_version_.toInt() << "\n";
     {
         std::lock_guard<std::mutex> lock{g_log_mutex};
